@@ -11,6 +11,8 @@ body:
   {"form": "json",  "msgs": [m]}            one JSON object
   {"form": "batch", "msgs": [m, ...]}       a JSON array
   {"form": "value", "v": <JSON value>}      JSON that is not a message
+  {"form": "object", "v": <JSON object>}    a JSON object without JSON-RPC members (the library's unified
+                                            message class accepts it as an empty message)
   {"form": "text",  "text": str}            not JSON
   {"form": "sse",   "events": [ev, ...], "eols": [bool, ...], "tail": "full"|"noblank"|"noeol"}
   optional: "cut": true (truncated to half its bytes), "bad": "lead"|"instr" (non-UTF-8 byte
@@ -56,6 +58,9 @@ def classify(d):
         return {"kind": "result", "id": idtag(mid), "payload": d.get("result")}
     if mid is not None and d.get("error") is not None:
         return {"kind": "error", "id": idtag(mid), "payload": d.get("error")}
+    if mid is None and (d.get("error") is not None or d.get("result") is not None):
+        # JSON-RPC error/result with a null id (what servers send when they reject a POST unparsed)
+        return {"kind": "other", "id": None, "payload": d.get("error") if d.get("error") is not None else d.get("result")}
     return {"kind": "other", "id": idtag(mid), "payload": None}
 
 
@@ -135,7 +140,7 @@ def body_bytes(body):
         raw = dumps(body["msgs"][0]).encode()
     elif f == "batch":
         raw = dumps(body["msgs"]).encode()
-    elif f == "value":
+    elif f in ("value", "object"):
         raw = dumps(body["v"]).encode()
     elif f == "text":
         raw = body["text"].encode()
@@ -184,6 +189,13 @@ def body_msgs(body):
     return []
 
 
+def _well_formed_msgs(b):
+    body = b["body"]
+    if body.get("cut") or body.get("bad") or body["form"] not in ("json", "batch", "sse"):
+        return []
+    return body_msgs(body)
+
+
 def expect(b):
     """What the property lets the oracle demand for one behaviour (derived from the generator's
     description only — never from the model):
@@ -194,7 +206,9 @@ def expect(b):
     if "exc" in b:
         return {"cls": "exception", "srv": [], "strict": False, "mangled": False}
     if b["status"] >= 400:
-        return {"cls": "http-error", "srv": [], "strict": False, "mangled": False}
+        # the property demands the synthesised terminal; whether the server's own messages in the
+        # error body are also delivered is left open (`may`: not an invention if they are)
+        return {"cls": "http-error", "srv": [], "strict": False, "mangled": False, "may": _well_formed_msgs(b)}
     body = b["body"]
     f = body["form"]
     cls = None
@@ -253,6 +267,10 @@ def content(kind, rid, tag):
             [result(rid, tag)] if rid is not None else [])
     if kind == "wrong-id":
         return [result(other, tag)]
+    if kind == "error-foreign-id":
+        return [error(other, tag)]
+    if kind == "error-null-id":
+        return [{"jsonrpc": "2.0", "id": None, "error": {"code": -32001, "message": "Session not found", "data": {"tag": tag}}}]
     raise ValueError(kind)
 
 
@@ -291,14 +309,19 @@ def mkcase(reqs, session0=None):
 
 STATUSES = [200, 202, 204, 301, 404, 500]
 CTS = ["json", "sse", "other", "absent"]
-BODY_CLASSES = ["response", "error", "batch", "notifs+response", "wrong-id", "empty", "truncated", "non-json",
-                "non-utf8", "non-utf8-instr", "value", "no-message"]
+BODY_CLASSES = ["response", "error", "batch", "notifs+response", "wrong-id", "error-foreign-id", "error-null-id", "junk-object",
+                "empty", "truncated", "non-json", "non-utf8", "non-utf8-instr", "value", "no-message"]
 
 
 def matrix_body(bclass, ct, rid, tag):
     form = "sse" if ct == "sse" else "json"
-    if bclass in ("response", "error", "notifs+response", "wrong-id"):
+    if bclass in ("response", "error", "notifs+response", "wrong-id", "error-foreign-id", "error-null-id"):
         return body_for(form, content(bclass, rid, tag))
+    if bclass == "junk-object":
+        # a JSON object that is no JSON-RPC message (what web frameworks answer), with or without an `error` member
+        objs = [{"detail": "Not Found", "tag": tag}, {"error": {"code": 404, "message": "no such session", "tag": tag}},
+                {"error": "unauthorized", "tag": tag}, {"status": 500, "error": {"message": "boom"}, "tag": tag}]
+        return {"form": "object", "v": objs[hash_small(tag) % len(objs)]}
     if bclass == "batch":
         msgs = [notif(tag + "-b"), result(rid, tag)] if rid is not None else [notif(tag + "-b"), notif(tag + "-c")]
         return body_for(form, msgs)
@@ -401,6 +424,13 @@ def alphabet():
     A.append(lambda r, t: response_b(404, "json", body_for("json", content("error", r, t)), "sess-X"))
     A.append(lambda r, t: response_b(500, "other", {"form": "text", "text": "boom"}))
     A.append(lambda r, t: response_b(301, "absent", {"form": "empty"}, "sess-F"))
+    A.append(lambda r, t: response_b(404, "json", body_for("json", content("error-null-id", r, t)), "sess-Y"))
+    A.append(lambda r, t: response_b(500, "json", body_for("json", content("error-foreign-id", r, t))))
+    A.append(lambda r, t: response_b(400, "json", body_for("json", content("wrong-id", r, t))))
+    A.append(lambda r, t: response_b(401, "json", matrix_body("junk-object", "json", r, t)))
+    A.append(lambda r, t: response_b(503, "sse", sse_body(content("error-null-id", r, t))))
+    A.append(lambda r, t: response_b(200, "json", body_for("json", content("error-null-id", r, t))))
+    A.append(lambda r, t: response_b(200, "json", body_for("json", content("error-foreign-id", r, t)), "sess-G"))
     A.append(lambda r, t: {"exc": "connect"})
     A.append(lambda r, t: {"exc": "read_timeout"})
     A.append(lambda r, t: {"exc": "asyncio_timeout"})
